@@ -200,3 +200,84 @@ func VerifC31_Outgoing() {
 	}
 	verifrt.Cover("end")
 }
+
+// VerifC31_TwoDevicePorts: one endpoint serving two device ports with
+// one-entry buffers; single-flit messages for either port arrive while the
+// devices drain their ports late or not at once. Every message is delivered
+// exactly once, to the port it names, and nothing is dropped or duplicated when
+// one port is momentarily full.
+func VerifC31_TwoDevicePorts() {
+	engine := timing.NewSerialEngine()
+	spec := DefaultSpec()
+	spec.NumInputChannels = 2
+	spec.FlitByteSize = 16
+	devPorts := []messaging.Port{
+		messaging.NewPort(&c31Dev{}, 1, 1, "Dev.P0"),
+		messaging.NewPort(&c31Dev{}, 1, 1, "Dev.P1"),
+	}
+	ep := MakeBuilder().WithRegistrar(modeling.NewStandaloneRegistrar(engine)).WithSpec(spec).
+		WithResources(Resources{DevicePorts: devPorts}).Build("EP")
+	netPort := messaging.NewPort(ep, 4, 2, "EP.NetworkPort")
+	netPort.SetConnection(&vpWire{})
+	ep.SetNetworkPort(netPort)
+
+	nMsg := verifrt.Bound("messages", 3, 4)
+	type msg struct {
+		meta      messaging.MsgMeta
+		port      int
+		delivered int
+	}
+	msgs := make([]*msg, nMsg)
+	for i := range msgs {
+		m := &msg{port: verifrt.Choice("dst-port", 2)}
+		m.meta = messaging.MsgMeta{ID: uint64(100 + i), Src: "Far.Port", Dst: devPorts[m.port].AsRemote(), RspTo: verifrt.Uint64("rspto"), TrafficClass: "c", TrafficBytes: 8}
+		msgs[i] = m
+	}
+	sent := 0
+	holds := [2]int{2 * verifrt.Choice("hold-p0", 3), 2 * verifrt.Choice("hold-p1", 3)} // ticks a full port stays undrained
+	var fullFor [2]int
+	var lastSeen [2]int
+	lastSeen[0], lastSeen[1] = -1, -1
+	for tick := 0; tick < 8*nMsg+16; tick++ {
+		if sent < nMsg && netPort.CanDeliver() {
+			m := msgs[sent]
+			f := packetization.Flit{SeqID: 0, NumFlitInMsg: 1, Msg: m.meta, MsgTaskID: uint64(1000 + sent)}
+			f.ID = timing.GetIDGenerator().Generate()
+			f.Src, f.Dst = "SW.Port", netPort.AsRemote()
+			netPort.Deliver(f)
+			sent++
+		}
+		ep.Tick()
+		for p := 0; p < 2; p++ {
+			if devPorts[p].PeekIncoming() == nil {
+				continue
+			}
+			if fullFor[p] < holds[p] {
+				fullFor[p]++
+				continue
+			}
+			fullFor[p] = 0
+			got := devPorts[p].RetrieveIncoming().(packetization.AssembledMsg)
+			idx := -1
+			for i, m := range msgs {
+				if m.meta.ID == got.ID {
+					idx = i
+				}
+			}
+			verifrt.Assert(idx >= 0, "delivered-message-is-one-that-was-sent")
+			if idx >= 0 {
+				m := msgs[idx]
+				verifrt.Assert(m.port == p && got.MsgMeta == m.meta, "delivered-to-the-port-it-names-with-its-metadata")
+				m.delivered++
+				verifrt.Assert(m.delivered == 1, "delivered-exactly-once")
+				verifrt.Assert(idx > lastSeen[p], "per-port-delivery-in-arrival-order")
+				lastSeen[p] = idx
+			}
+		}
+	}
+	for _, m := range msgs {
+		verifrt.Assert(m.delivered == 1, "every-message-delivered")
+	}
+	verifrt.Assert(len(ep.State.AssemblingMsgs) == 0 && len(ep.State.AssembledMsgs) == 0, "nothing-left-in-the-endpoint")
+	verifrt.Cover("end")
+}
